@@ -56,6 +56,9 @@ func algValue(c *ctx, a int, rep int) (any, bool) {
 		return float64(a), false
 	case 8:
 		return []byte{byte(a)}, false
+	case 12:
+		// the reserved value 0, present: an algorithm identifier like any other, and not the key's
+		return pick(c.r, []any{0, int64(0), uint64(0), key.Alg(0), int8(0)}), true
 	case 11:
 		// the unsigned 64-bit twin: 2^64 + a for a negative identifier (what a conversion through int64 would wrap onto a),
 		// a + 2^63 otherwise. Not the identifier.
@@ -175,7 +178,7 @@ func streamAlg(c *ctx) {
 		}
 		// oracle: refused iff a header algorithm is present and is not (an integer equal to) the key's algorithm
 		if headerPresent && kalg != 0 {
-			want := isInt && rep != 9 && rep != 11 && ha.alg == kalg
+			want := isInt && rep != 9 && rep != 11 && rep != 12 && ha.alg == kalg
 			if want != (err == nil) {
 				c.fail(failure{Op: "alg-binding", What: kind + " produce: protected alg vs key alg", Input: line, Observed: fmt.Sprintf("ok=%v", err == nil), Expected: fmt.Sprintf("ok=%v", want), Case: line, Theorem: "C05_alg_mismatch_refused"})
 			}
@@ -200,7 +203,7 @@ func streamAlg(c *ctx) {
 		}
 		// make the message with a key that has no algorithm (gate passes for non-int headers) or the header's own algorithm
 		var mk key.Key
-		if isInt && rep != 9 && rep != 11 {
+		if isInt && rep != 9 && rep != 11 && rep != 12 {
 			mk = keyFor(ha, nil, true)
 		} else {
 			mk = key.Key{iana.KeyParameterKty: 4}
@@ -287,7 +290,7 @@ func streamAlg(c *ctx) {
 		line2 := fmt.Sprintf("alg-consume|kind=%s|decoded_header=%s|key=%s|unprotected_alg=%v => ok=%v", kind, describe(map[any]any(decoded)), describe(map[any]any(k)), idx%2 != 0, cerr == nil)
 		c.addCase(fmt.Sprintf("AConsume %s %s %s", qMap(decoded), qMap(k), qB(cerr == nil)), line2)
 		if kalg != 0 {
-			want := isInt && rep != 9 && rep != 11 && ha.alg == kalg
+			want := isInt && rep != 9 && rep != 11 && rep != 12 && ha.alg == kalg
 			if want != (cerr == nil) {
 				c.fail(failure{Op: "alg-binding", What: kind + " consume: protected alg vs key alg", Input: line2, Observed: fmt.Sprintf("ok=%v", cerr == nil), Expected: fmt.Sprintf("ok=%v", want), Case: line2, Theorem: "C05_alg_mismatch_refused"})
 			}
@@ -314,6 +317,7 @@ func streamAlg(c *ctx) {
 	for _, kind := range kinds {
 		for _, a := range allAlgs {
 			emit(kind, a, a, 11, true, true, false)
+			emit(kind, a, a, 12, true, true, c.r.bool())
 			emit(kind, a, a, 9, true, c.r.bool(), true)
 		}
 	}
@@ -332,7 +336,7 @@ func streamAlg(c *ctx) {
 				ha, ka = ka, ha
 			}
 		}
-		emit(kind, ha, ka, c.r.intn(12), c.r.intn(6) > 0, c.r.intn(6) > 0, c.r.bool())
+		emit(kind, ha, ka, c.r.intn(13), c.r.intn(6) > 0, c.r.intn(6) > 0, c.r.bool())
 	}
 	// ---- COSE_Sign: per-signer buckets, verifiers found by kid
 	ns := c.n(300, 3000)
